@@ -5,6 +5,7 @@ import (
 	"io"
 	"log/slog"
 	"os"
+	"runtime"
 	"strings"
 	"sync"
 	"testing"
@@ -193,6 +194,9 @@ func checkC19(c c19Case, rec *Rec) *Violation {
 	if v := c19ConcurrentAfterPartialFault(c, oracle, rec); v != nil {
 		return v
 	}
+	if v := c19ConcurrentLoadThenFault(c, oracle, rec); v != nil {
+		return v
+	}
 	if nontrivial {
 		rec.NonTrivial(fmt.Sprintf("%x", hash64(fmt.Sprint(c))), map[string]any{"lists": c.Lists, "queries": c.Queries, "fault_points": 2 * (n + 1)})
 	}
@@ -273,6 +277,72 @@ func c19ConcurrentAfterPartialFault(c c19Case, oracle []map[string]bool, rec *Re
 			}
 		}
 	}
+	return nil
+}
+
+// c19ConcurrentLoadThenFault: the rules are materialised by several goroutines
+// at once (every goroutine its own share of the queries, on a cold cache), then
+// every list becomes unreadable, then the queries are asked again one by one:
+// whatever was returned before the fault and matches must still be served.
+func c19ConcurrentLoadThenFault(c c19Case, oracle []map[string]bool, rec *Rec) *Violation {
+	const id = "C19"
+	if len(c.Queries) < 2 {
+		return nil
+	}
+	en, fls, cleanup, err := c19Engines(c.Lists)
+	if err != nil {
+		return viol(id, "C19:harness", "storage: %v", err)
+	}
+	defer cleanup()
+	c14HookMu.Lock()
+	setYieldHooks(func(string) { runtime.Gosched() })
+	const G = 4
+	before := make([]map[string]bool, len(c.Queries))
+	var wg sync.WaitGroup
+	panics := make([]any, G)
+	for g := 0; g < G; g++ {
+		wg.Add(1)
+		go func(g int) {
+			defer wg.Done()
+			defer func() { panics[g] = recover() }()
+			for i := g; i < len(c.Queries); i += G {
+				before[i] = en.resultSet(c.Queries[i])
+			}
+		}(g)
+	}
+	wg.Wait()
+	setYieldHooks(nil)
+	c14HookMu.Unlock()
+	for g, p := range panics {
+		if p != nil {
+			return viol(id, "C19:harness", "goroutine %d panicked before any fault: %v", g, p)
+		}
+	}
+	seen := map[string]bool{}
+	for i, b := range before {
+		if !sameSet(b, oracle[i]) {
+			// concurrent answers before any fault are C14's subject; nothing is concluded from this history
+			rec.Label("concurrent-load:answers-differ-before-fault")
+			return nil
+		}
+		for x := range b {
+			seen[x] = true
+		}
+	}
+	for _, f := range fls {
+		old := f.File
+		f.File = closedFile()
+		_ = old.Close()
+	}
+	for i, q := range c.Queries {
+		got := en.resultSet(q)
+		for x := range oracle[i] {
+			if seen[x] && !got[x] {
+				return viol(id, "C19:materialised-rule-lost:loaded-concurrently", "%d goroutines loaded the rules, then every list became unreadable: rule %q was returned before the fault and matches %+v but is not served", G, x, q)
+			}
+		}
+	}
+	rec.Label("concurrent-load-then-fault")
 	return nil
 }
 
